@@ -28,7 +28,11 @@ PROP = dict(
     trusted_base=[
         "the filesystem (path resolution with symbolic links, mkdir/open/unlink/rmdir/symlink/link, os.MkdirAll, os.Remove) is MODELLED in "
         "MM/Model/C27.lean and validated against the real OS by the correspondence run only",
-        "archive/tar + compress/gzip readers are trusted; only well-formed archives are generated",
+        "archive/tar + compress/gzip readers are trusted: a stream they reject ends the extraction with an error; the model covers the entry kinds the extractor acts on "
+        "(directory, regular, symlink, hard link; PAX and GNU long names / formats arrive as ordinary headers) and treats every other type flag (fifo, character and "
+        "block devices, unknown flags) as checked-then-skipped; for malformed / hostile streams (untarraw: truncated gzip or tar, bad checksums, absurd or invalid sizes, "
+        "unknown type flags, raw '..' names, NUL in names, PAX path / linkpath overrides, trailing garbage, bit noise) only totality and 'nothing outside the destination "
+        "changed' are compared",
         "component names are abstracted to numbers ('.' and empty components dropped, '..' distinguished); filepath.Clean/Join/Rel on them is modelled",
     ],
     assumptions=[
